@@ -113,6 +113,7 @@ func caseUsesOnce(w *World, f *ssa.Function, k int, rawStores map[*ssa.Store]boo
 		return nil, []string{"no such parameter"}, rawFound
 	}
 	ev, un := map[string]bool{}, map[string]bool{}
+	condNorm, condNormBad := "", ""
 	raw := map[ssa.Value]bool{}
 	rawCells := map[*ssa.Alloc]bool{}
 	var work []ssa.Value
@@ -142,6 +143,22 @@ func caseUsesOnce(w *World, f *ssa.Function, k int, rawStores map[*ssa.Store]boo
 				if ix, isIx := x.(*ssa.Index); isIx && ix.Index == v && ix.X != v {
 					un["index computed from the text at "+pos(x)] = true
 					continue
+				}
+				if ph, isPhi := x.(*ssa.Phi); isPhi {
+					// the text as typed merged with its own normalised form: it is normalised only when some test
+					// says so. Whether that test lets exactly the texts through that need no normalising is a question
+					// about the test, not about where the letters go; nothing below is taken as evidence then
+					for _, e := range ph.Edges {
+						if cl, isCall := e.(*ssa.Call); isCall && caseNormalisers[calleeName(cl)] {
+							condNorm = pos(ph)
+							if why := partialCaseTest(f, cl); why != "" {
+								condNormBad = why
+							}
+						}
+					}
+					if condNorm != "" {
+						continue
+					}
 				}
 				mark(x.(ssa.Value))
 			case *ssa.Extract:
@@ -256,6 +273,17 @@ func caseUsesOnce(w *World, f *ssa.Function, k int, rawStores map[*ssa.Store]boo
 				un[fmt.Sprintf("%T at %s", r, pos(r))] = true
 			}
 		}
+	}
+	if condNormBad != "" {
+		ev = map[string]bool{condNormBad: true}
+		condNorm = ""
+	}
+	if condNorm != "" {
+		un["the text is normalised only under a condition (merge at "+condNorm+"); which texts skip it is not decided"] = true
+		for s := range ev {
+			un[s] = true
+		}
+		ev = map[string]bool{}
 	}
 	for s := range ev {
 		evidence = append(evidence, s)
@@ -381,4 +409,43 @@ func normalisedStoreDominates(a *ssa.Alloc, ld *ssa.UnOp, rawStores map[*ssa.Sto
 		}
 	}
 	return false
+}
+
+// partialCaseTest: the normalising call cl (strings.ToUpper(text)) runs only under a condition. Two shapes of
+// that condition are decided, both as "too narrow": it looks at ONE position of the text (text[0] >= 'a',
+// unicode.IsLower(rune(text[0]))), or it asks strings.ContainsAny(text, <list>) with a list that lacks some
+// lower-case letter a-z. In both a text whose lower-case letters sit elsewhere (or are other letters) skips
+// the normalisation. Anything else returns "".
+func partialCaseTest(f *ssa.Function, cl *ssa.Call) string {
+	if len(cl.Call.Args) == 0 || len(f.Blocks) == 0 {
+		return ""
+	}
+	tb := newTB(f)
+	tb.NoInline = true
+	text := tb.T(cl.Call.Args[0]).String()
+	for _, a := range pathCond(tb, f.Blocks[0], cl.Block()).atoms() {
+		why := ""
+		a.Atom.walk(func(x *Term) {
+			if why != "" {
+				return
+			}
+			if x.Op == "index" && len(x.Args) == 2 && x.Args[0].String() == text && x.Args[1].Op == "const" {
+				why = "a normalisation that runs only when a test of ONE position of the text (" + short(a.Atom.String()) + ") says so: a text whose lower-case letters sit elsewhere stays as typed"
+			}
+			if (x.isCall("strings.ContainsAny") || x.isCall("bytes.ContainsAny")) && len(x.Args) == 2 && x.Args[0].String() == text {
+				if list, isK := normText(x.Args[1]).constStr(); isK {
+					for r := 'a'; r <= 'z'; r++ {
+						if !strings.ContainsRune(list, r) {
+							why = fmt.Sprintf("a normalisation that runs only when the text contains one of %q: a text whose only lower-case letters are others (%q, say) stays as typed", list, string(r))
+							break
+						}
+					}
+				}
+			}
+		})
+		if why != "" {
+			return why
+		}
+	}
+	return ""
 }
